@@ -236,7 +236,7 @@ class Ctx:
 
     # ---------- correspondence ----------
     def compare_stream(self, name, cases_path, impl_path, model_path, nontrivial=None,
-                       classify=None, max_report=5):
+                       classify=None, max_report=5, concrete=True, kind='correspondence'):
         """line-by-line comparison; returns list of mismatching indices"""
         cases = open(cases_path).read().split('\n')
         impl = open(impl_path).read().split('\n')
@@ -261,8 +261,12 @@ class Ctx:
             self.cov['samples'].append({'stream': name, 'case': cases[k][:400], 'impl': impl[k][:400]})
         for i in mism[:max_report]:
             cls = classify(cases[i], impl[i], model[i]) if classify else None
-            self.add_violation('correspondence:' + name, cls,
-                               dict(stream=name, index=i, case=cases[i], impl=impl[i], model=model[i]))
+            if concrete:
+                self.add_violation(kind + ':' + name, cls,
+                                   dict(stream=name, index=i, case=cases[i], impl=impl[i], model=model[i]))
+            elif i == mism[0]:
+                self.gate_breaks.append('correspondence stream %s no longer checks: first differing case #%d %s impl=%s model=%s'
+                                        % (name, i, cases[i][:300], impl[i][:300], model[i][:300]))
         if len(mism) > max_report:
             self.notes.append('%s: %d further mismatches not listed' % (name, len(mism) - max_report))
         return mism
